@@ -499,7 +499,7 @@ func run(c *harness.Case) {
 	// ---- choose parameters: every kind gets its turn; thorough uses all parameters regularly
 	var chosen []*pinfo
 	switch {
-	case c.Thorough() && c.Index%4 == 0:
+	case c.Thorough() && c.Index%8 == 0:
 		chosen = params
 	default:
 		n := 6 + c.R.Intn(10)
@@ -864,6 +864,20 @@ func run(c *harness.Case) {
 					stale[key] = nv
 				}
 			}
+			// keys that the final version of this source no longer has (a deleted setting must not linger)
+			for _, p := range chosen {
+				if _, _, has := lookup(a[s], p); has || c.R.Intn(4) != 0 {
+					continue
+				}
+				for try := 0; try < 10; try++ {
+					cand := pickValue(c, p)
+					if !fatal(p, cand) {
+						stale[keyVariant(c, p.name, s)] = cand
+						c.Count("stale_keys_later_removed", 1)
+						break
+					}
+				}
+			}
 			steps = append(steps, step{s, stale, false})
 		}
 	}
@@ -958,7 +972,7 @@ func main() {
 	harness.Main(harness.Check{
 		ID:    "C27",
 		Level: "exploration",
-		Rule: "each case picks 6-15 parameters (case i always includes a parameter of kind i mod #kinds; every 4th thorough case uses all parameters) and assigns, per source, absent / one of the kind's valid+invalid candidate strings / none-variants, " +
+		Rule: "each case picks 6-15 parameters (case i always includes a parameter of kind i mod #kinds; every 8th thorough case uses all parameters) and assigns, per source, absent / one of the kind's valid+invalid candidate strings / none-variants, " +
 			"with case-variant keys, the environment and config-file sources passing through the real loaders; fatal values only at a winning position (1 case in 12); " +
 			"non-trivial = at least one shadowed value or one datastore value of a local-only parameter; distinct by the whole assignment",
 		Assumptions: []string{
@@ -969,13 +983,13 @@ func main() {
 		Setup: func(string) error { return loadParams() },
 		Cases: func(tier string) int {
 			if tier == "thorough" {
-				return 200000
+				return 60000
 			}
 			return 3000
 		},
 		Run: run,
 		Floors: map[string]int64{"updatefrom_calls": 5000, "params_judged": 2500, "shadowed_values": 1000, "local_only_datastore_values": 100,
 			"winner_parsed": 800, "winner_none_zero": 100, "winner_invalid_default": 200, "fatal_cases": 5, "changed_checks": 2000,
-			"metamorphic_comparisons": 600, "case_variant_keys": 800},
+			"metamorphic_comparisons": 600, "case_variant_keys": 800, "stale_keys_later_removed": 1000},
 	})
 }
